@@ -1218,4 +1218,96 @@ theorem containers_ok (o : Opts) : ∀ fuel, ContOk o fuel := by
     exact ⟨fun s cont isBlock h => parseContainer_step o fuel ih s cont isBlock h,
            fun s cont isBlock h => elemsLoop_step o fuel ih s cont isBlock h⟩
 
+/-! #### the whole parse -/
+
+theorem fok_blocksLoop (o : Opts) : ∀ (fuel : Nat) (s : PS), 2 * U s + 4 ≤ fuel → FOk (fun _ => True) (blocksLoop o fuel s) := by
+  intro fuel
+  induction fuel with
+  | zero => intro s h; omega
+  | succ fuel ih =>
+    intro s hf
+    have hc := (containers_ok o fuel).1
+    rw [blocksLoop]
+    simp only [bind_eq, pure_eq, pure_bind']
+    refine fok_bind _ _ _ _ (fok_nextTok o s) ?_
+    rintro ⟨t, s1⟩ ⟨hU, htok⟩
+    simp only at hU htok ⊢
+    have hcs := U_consume s1
+    rw [htok] at hcs
+    split
+    · -- BLOCK_HEAD: consumed
+      rename_i heq
+      have hp := pw_pos t (by rw [heq]; decide)
+      have body : ∀ c, FOk (fun _ => True) ((parseContainer o fuel (consume s1) c true).bind fun s => blocksLoop o fuel s) := by
+        intro c
+        refine fok_bind _ _ _ _ (hc (consume s1) c true (by omega)) ?_
+        intro r hr
+        exact ih r (by have := hr.1; omega)
+      have hcr : ∀ (k : Path → P PS), (∀ p, FOk (fun _ => True) (k p)) →
+          FOk (fun _ => True) ((createIn o true [] (cstr t.text) s1.scan.line (s1.scan.col - t.text.length)).bind k) :=
+        fun k hk => fok_bind _ _ _ _ (fok_createIn o _ _ _ _ _) (fun p _ => hk p)
+      by_cases hs : o.store = true
+      · rw [if_pos hs]
+        exact hcr _ (fun p => body _)
+      · rw [if_neg hs]
+        exact body _
+    · exact fok_pure _ _ trivial
+    · -- anything else: an anonymous block is parsed from the pending token, which it consumes
+      rename_i hnb hne
+      have hq : quiet true t.ty = false := by
+        cases hty : t.ty <;> simp [quiet] <;> first | exact hnb hty | exact hne hty
+      have body : ∀ c, FOk (fun _ => True) ((parseContainer o fuel s1 c true).bind fun s => blocksLoop o fuel s) := by
+        intro c
+        refine fok_bind _ _ _ _ (hc s1 c true (by omega)) ?_
+        intro r hr
+        exact ih r (by have := hr.2 t htok hq; omega)
+      refine fok_bind _ _ _ _ (fok_report _ _ _) (fun _ _ => ?_)
+      by_cases hs : o.store = true
+      · rw [if_pos hs]
+        refine fok_bind _ _ _ _ fok_getCif (fun cif _ => ?_)
+        by_cases hex : (cif.any (codeIs o.norm (o.norm []))) = true
+        · rw [if_pos hex]; exact body _
+        · rw [if_neg hex]
+          exact fok_bind _ _ _ _ (fok_setCif _) (fun _ _ => body _)
+      · rw [if_neg hs]
+        exact body _
+
+theorem fok_parseCif (o : Opts) (fuel : Nat) (s : PS) (hf : 2 * U s + 4 ≤ fuel) : FOk (fun _ => True) (parseCif o fuel s) := by
+  unfold parseCif
+  refine fok_clamp _ ?_
+  simp only [bind_eq, pure_eq]
+  exact fok_bind _ _ _ _ (fok_blocksLoop o fuel s hf) (fun _ _ => fok_pure _ _ trivial)
+
+theorem U_init (input : Str) : U { scan := Scan.init input, tok := none } = input.length := by
+  simp [U, Scan.init, pw_none]
+
+theorem fok_afterFirst (o : Opts) (fuel : Nat) (c : CU) (rest : Str) (hf : 2 * (rest.length + 1) + 4 ≤ fuel) :
+    FOk (fun _ => True) (afterFirst o fuel c rest) := by
+  unfold afterFirst
+  simp only [bind_eq, pure_eq]
+  have hp : ∀ input : Str, input.length ≤ rest.length + 1 →
+      FOk (fun _ => True) (parseCif o fuel { scan := Scan.init input, tok := none }) :=
+    fun input h => fok_parseCif o fuel _ (by rw [U_init]; omega)
+  have hp1 := hp (if (c == 0xFEFF) = true then rest else c :: rest) (by split <;> simp <;> omega)
+  fokq [hp1]
+
+theorem fok_parseInternal (o : Opts) (units : Str) : FOk (fun _ => True) (parseInternal o (fuelFor units) units) := by
+  unfold parseInternal
+  cases units with
+  | nil => exact fok_pure _ _ trivial
+  | cons c rest =>
+    simp only
+    refine fok_bind (fun rv => rv ≠ NOFUEL) _ _ _ ?_ ?_
+    · by_cases hd : disallowedInitial c = true
+      · rw [if_pos hd]; exact fok_ask _ _ _
+      · rw [if_neg hd]; exact fok_pure _ _ (by decide)
+    · intro rv hrv
+      by_cases h1 : rv = -1
+      · rw [if_pos h1]; exact fok_pure _ _ trivial
+      · rw [if_neg h1]
+        by_cases h0 : rv ≠ 0
+        · rw [if_pos h0]; exact fok_fail _ _ hrv
+        · rw [if_neg h0]
+          exact fok_afterFirst o _ c rest (by simp only [fuelFor, List.length_cons]; omega)
+
 end CifModel.Model.Parser
